@@ -516,16 +516,16 @@ def _watchdog(seconds):
     def onalarm(signum, frame):
         raise _Timeout()
     try:
-        old = signal.signal(signal.SIGALRM, onalarm)
+        old = signal.signal(signal.SIGPROF, onalarm)
     except ValueError:          # not in the main thread: no guard available
         yield
         return
-    signal.setitimer(signal.ITIMER_REAL, seconds)
+    signal.setitimer(signal.ITIMER_PROF, seconds)
     try:
         yield
     finally:
-        signal.setitimer(signal.ITIMER_REAL, 0)
-        signal.signal(signal.SIGALRM, old)
+        signal.setitimer(signal.ITIMER_PROF, 0)
+        signal.signal(signal.SIGPROF, old)
 
 
 def run_s_history(h, maxviol=1):
@@ -547,7 +547,7 @@ def run_s_history(h, maxviol=1):
                 if len(run_.viol) >= maxviol:
                     break
     except _Timeout:
-        run_.bad(max(step, 0), "operation did not terminate within 10 s (cyclic links / endless stale-entry loop?)")
+        run_.bad(max(step, 0), "the history did not finish within 10 s of CPU time (cyclic links / endless stale-entry loop?)")
     return run_.viol, (run_.nins > 0 and run_.npop > 0), run_.stats
 
 
